@@ -626,3 +626,60 @@ def extract_fn(repo, fnspec):
                 src_line=loc['line'], file=fnspec['file'],
                 body_sha=hashlib.sha256(re.sub(r'\s+', ' ', orig_body).encode()).hexdigest()[:16],
                 sig=sig.strip())
+
+
+def extract_stmts(repo, fnspec):
+    """Statement-level extraction: copy the statements that start at the given anchors (each up to its
+    terminating `;` at bracket depth 0) out of `src_fn` verbatim into a wrapper function whose signature
+    is given by the unit.  Everything else in the source function is dropped (stated in the log)."""
+    import hashlib
+    path = f"{repo}/{fnspec['file']}"
+    try:
+        src = open(path).read()
+    except OSError as e:
+        raise ExtractError(f"anchor lost: file {fnspec['file']}: {e}")
+    masked = mask(src)
+    loc = find_fn(src, masked, fnspec['src_fn'], fnspec.get('impl'))
+    body = src[loc['body_open']:loc['body_close'] + 1]
+    mb = mask(body)
+    log = [f"statement extraction from fn {fnspec['src_fn']}: only the anchored statements are kept, the rest of the function is dropped"]
+    stmts = []
+    lines = []
+    for a in fnspec['anchors']:
+        n = body.count(a)
+        if n != 1:
+            raise ExtractError(f"statement anchor lost: {a!r} matched {n}x in fn {fnspec['src_fn']}")
+        i = body.index(a)
+        depth = 0
+        j = i
+        while j < len(mb):
+            c = mb[j]
+            if c in '([{':
+                depth += 1
+            elif c in ')]}':
+                depth -= 1
+            elif c == ';' and depth == 0:
+                break
+            j += 1
+        st = body[i:j + 1]
+        stmts.append(st)
+        lines.append(loc['line'] + src[loc['sig_start']:loc['body_open']].count('\n') + body.count('\n', 0, i))
+        log.append(f"kept statement at {fnspec['file']}:{lines[-1]}: `{' '.join(st.split())[:100]}`")
+    text_body = '{\n' + '\n'.join('    ' + s_ for s_ in stmts) + ('\n    ' + fnspec['ret'] if fnspec.get('ret') else '') + '\n}'
+    for d in fnspec.get('directives', []):
+        if d['kind'] == 'subst':
+            text_body = subst(text_body, d['from'], d['to'], log, d.get('rule', 'subst'), d.get('count', 1), regex=bool(d.get('regex')))
+    parts = [fnspec['wrapper_sig']]
+    for kind in ('requires', 'ensures'):
+        cl = fnspec.get(kind, [])
+        if cl:
+            parts.append(f"    {kind}")
+            for (oid, t) in cl:
+                parts.append(f"        {t.rstrip().rstrip(',').strip()},  //@OBL {kind} {oid}")
+    text = '\n'.join(parts) + '\n' + text_body + '\n'
+    out_lines = text.split('\n')
+    linemap = [lines[0] if lines else loc['line']] * len(out_lines)
+    return dict(text=text, linemap=linemap, exact=[False] * len(out_lines), log=log, nloops=0,
+                src_line=loc['line'], file=fnspec['file'],
+                body_sha=hashlib.sha256(' '.join(' '.join(s_.split()) for s_ in stmts).encode()).hexdigest()[:16],
+                sig=fnspec['wrapper_sig'])
